@@ -170,15 +170,23 @@ class Normalizer:
                     continue
                 cb = self.S.callee_body(c)
                 outs = self.S.outcomes(cb) if cb is not None else []
-                if len(outs) != 1 or outs[0].conds:
-                    skip.add(c)
-                    continue
-                todo = (c, outs[0])
-                break
+                if len(outs) == 1 and not outs[0].conds:
+                    todo = (c, outs[0])
+                    break
+                # a helper that only selects on one test of its arguments (`match opt { Some(x) => f(x), None => g }`):
+                # the selection itself, with the arguments substituted
+                if len(outs) > 1 and all(len(o.conds) == 1 for o in outs) and len({o.conds[0][0] for o in outs}) == 1 and len({o.conds[0][1] for o in outs}) == len(outs):
+                    todo = (c, outs)
+                    break
+                skip.add(c)
             if todo is None:
                 break
             c, o = todo
-            v = flow.simplify_term(summary.subst(o.value, c[2], None))
+            if isinstance(o, list):
+                test = flow.simplify_term(summary.subst(o[0].conds[0][0], c[2], None))
+                v = ("gamma", test, tuple((x.conds[0][1], flow.simplify_term(summary.subst(x.value, c[2], None))) for x in o))
+            else:
+                v = flow.simplify_term(summary.subst(o.value, c[2], None))
             t = self.norm(summary.replace(t, c, self.inline(v, depth + 1)))
         return t
 
